@@ -548,6 +548,22 @@ class _Stage:
                     if tier != "quick" or sn == "two-shared":
                         for c in pool[::2]:
                             out.append(("st3:%s:%s;%s;%s" % (sn, a, b, c), ["r handles 3"] + su + [a, b, c, "r end"]))
+        # arrays of array handles (mpt_array_traits) as nested values: wrap, append another handle's value, assign a
+        # handle one of its own elements (the source lives in the buffer the target gives up) or one of another handle
+        nsetups = {"nest3": ["r wrap h0", "r wrap h0", "r wrap h0"], "nest3-shared": ["r wrap h0", "r wrap h0", "r wrap h0", "r clone h1 h0"],
+                   "wide": ["r wrap h1", "r wrap h0", "r wrap h0", "r push h0 h1", "r drop h1"], "empty": []}
+        def nops(h, o):
+            return ["r take %s 0" % h, "r take %s 1" % h, "r takeo %s %s 0" % (h, o), "r wrap %s" % h, "r push %s %s" % (h, o),
+                    "r clone %s %s" % (h, o), "r drop %s" % h]
+        npool = nops("h0", "h1") + nops("h1", "h0")
+        for sn, su in nsetups.items():
+            for a in npool:
+                out.append(("ne1:%s:%s" % (sn, a), ["r handles 2"] + su + [a, "r end"]))
+                for b in npool:
+                    out.append(("ne2:%s:%s;%s" % (sn, a, b), ["r handles 2"] + su + [a, b, "r end"]))
+                    if tier != "quick":
+                        for c in npool:
+                            out.append(("ne3:%s:%s;%s;%s" % (sn, a, b, c), ["r handles 2"] + su + [a, b, c, "r end"]))
         r = gen.rng(id, tier, seed, "stage")
         hs = ["h0", "h1", "h2"]
         for k in range((150 if tier == "quick" else 3000) * scale):
@@ -573,7 +589,7 @@ class _Stage:
             w = ln.split()
             if w[1] == "clone":
                 shared = True
-            elif w[1] == "sput" and shared:
+            elif w[1] in ("sput", "take", "takeo", "push", "wrap") and shared:
                 return True
         return False
 
